@@ -218,6 +218,14 @@ def asg_matrix():
                 yield f"{{ {ta} a = RssV; {tb} b = RttV; a {op} b; RddV = a; }}"
         for d in ("RxV", "RxxV", "RdV", "PdV", "P0", "EA"):
             yield f"{{ {d} {op} RsV; }}"
+        # target and source are the same object / depend on each other
+        for ta in ("int32_t", "uint32_t", "int64_t", "uint64_t", "int16_t"):
+            yield f"{{ {ta} a = RssV; a {op} a; RddV = a; }}"
+            yield f"{{ {ta} a = RssV; a {op} a + 1; RddV = a; }}"
+            yield f"{{ {ta} a = RssV; {ta} b = RttV; a {op} b; b {op} a; RddV = a + b; }}"
+        yield f"{{ RxxV {op} RxxV; }}"
+        yield f"{{ for (i = 0; i < 3; i++) {{ RxxV {op} RxxV; }} }}"
+        yield f"{{ int32_t a = RssV; if (RuV) {{ a {op} a; }} else {{ a {op} 3; }} RddV = a; }}"
 
 
 UNSUPPORTED = [
